@@ -20,7 +20,7 @@ LEVEL_NOTE = NOTE
 TECHNIQUE = TECH + " (random source stubbed to fresh symbolic uniforms)"
 E = {"SYM_ABS_NOFORK": "1", "SYM_DIV0_PRUNE": "1", "SYM_MAX_DRAWS": "7"}
 JOBS = [
-    Job("samplers", "C18.cpp", ["HLO=0", "HHI=0"], env=E, budget_s=400, desc="uniform, coin, exponential(mean), gaussian(mean, variance), gamma(shape, rate), and the gaussian / exponential distributions' own draws"),
+    Job("samplers", "C18.cpp", ["HLO=0", "HHI=0"], env=E, budget_s=400, desc="uniform, coin, exponential(mean), gaussian(mean, variance), gamma(shape, rate), the gaussian / exponential / uniform / truncated-exponential / constant distributions' own continuous draws (cdf at the draw = the uniform variate), a discrete distribution's draw (class whose cumulative interval contains the variate)"),
     Job("picks", "C18.cpp", ["HLO=1", "HHI=1", "NMAX=3"], env=E, budget_s=200, desc="weighted picks with and without replacement, cumulative-sum picks, multinomial draws, weighted sampling"),
     Job("contingency-tables", "C18.cpp", ["HLO=2", "HHI=2", "TOTMAX=4"], thorough_defines=["HLO=2", "HHI=2", "TOTMAX=6"], env=E, budget_s=300, thorough_budget_s=3000, desc="rcont2: exactly the requested row and column totals for every margin vector and every random stream"),
     Job("independence-test", "C18.cpp", ["HLO=4", "HHI=4"], env=E, budget_s=200, desc="permutation independence test on every 2x2 table with cells 0..2, 1-2 permutations: p-value in (0,1] and of the form (count+1)/(permutations+1) for every random stream"),
